@@ -25,7 +25,7 @@ RULE = ('batch of sources x 2-6 configs x conditions {4 hash seeds, other cwd, 3
 ASSUMPTIONS = ['section 5 (gzip+pickle debug info) is excluded as the property states',
                'clock independence is tested with patched time/datetime modules, the sandbox clock cannot be set']
 REQUIRED_COUNTERS = ['digests_compared', 'child_processes', 'history_compilations']
-CASE_TIMEOUT = 600
+CASE_TIMEOUT = 1800
 SHARD_TIMEOUT = {'quick': 1500, 'thorough': 7200}
 
 VERIF = os.path.dirname(os.path.dirname(os.path.dirname(os.path.abspath(__file__))))
@@ -134,7 +134,7 @@ def spawn(job, env_extra, cwd):
     try:
         p = subprocess.run([sys.executable, '-B', '-c',
                             'import sys; sys.path.insert(0, %r); from qv.checks.c20 import child_main; child_main(%r)' % (VERIF, path)],
-                           env=env, cwd=cwd, capture_output=True, text=True, timeout=400)
+                           env=env, cwd=cwd, capture_output=True, text=True, timeout=900)
         for line in p.stdout.splitlines():
             if line.startswith('RESULT'):
                 return json.loads(line[6:]), None
